@@ -241,13 +241,13 @@ class Checker:
                     pe = node.p_edges[edge_index]
                     edge_index += 1
                     value = name[depth]
+                    if pe.tag in context and value != context[pe.tag]:
+                        continue
+                    if not self._check_cons(value, context, pe.cons_sets):
+                        continue
                     if pe.tag in context:
-                        if value != context[pe.tag]:
-                            continue
                         matches.append(-1)
                     else:
-                        if not self._check_cons(value, context, pe.cons_sets):
-                            continue
                         if pe.tag <= self.model.named_pattern_cnt:
                             context[pe.tag] = value
                             matches.append(pe.tag)
